@@ -4,7 +4,7 @@
 Require Extraction.
 Require ExtrOcamlBasic.
 From Coq Require Import NArith ZArith List.
-From V9 Require Import Lib.GoSem Lib.Bytes Gen.Consts Log.Ring Codec.Msg Codec.Pack Codec.Unpack Srv.Seq Srv.SeqSpec Recv.Recv Ufs.DirWindow Clnt.IO Srv.Conc.
+From V9 Require Import Lib.GoSem Lib.Bytes Gen.Consts Log.Ring Codec.Msg Codec.Pack Codec.Unpack Srv.Seq Srv.SeqSpec Recv.Recv Ufs.DirWindow Clnt.IO Srv.Conc Clnt.Model.
 
 Extraction Language OCaml.
 Extraction "model.ml"
@@ -18,6 +18,6 @@ Extraction "model.ml"
   SeqSpec.spec_step SeqSpec.vget SeqSpec.rules_ok SeqSpec.fid_ok SeqSpec.is_valid
   Recv.srv_run Recv.clnt_run Recv.srv_frames Recv.clnt_frames
   DirWindow.dir_window DirWindow.listing DirWindow.readdir_chunks IO.frun
-  Conc.step Conc.run Conc.init
+  Conc.step Conc.run Conc.init Model.crun Model.cinit_n Model.cstep
   Consts.c_Eunknownfid_text Consts.c_Einuse_text
   Consts.c_NOTAG Consts.c_NOFID Consts.c_NOUID Consts.c_IOHDRSZ.
